@@ -344,7 +344,8 @@ class D:
 ]
 
 
-POOL = ["tuple[()]", "tuple[int]", "tuple[int, str]", "tuple[str, ...]",
+POOL = ["list", "tuple", "dict", "SL", "dict[str, str]", "list[B]",
+        "tuple[()]", "tuple[int]", "tuple[int, str]", "tuple[str, ...]",
         "list[int]", "list[str]", "Callable[[], int]", "Callable[[int], str]",
         "Callable[..., int]", "dict[int, str]", "dict[str, int]", "int", "A",
         "B", "None", "object", "type[A]", "type[B]", "set[B]", "Any",
@@ -361,11 +362,14 @@ def part_small_unions(ctx, arity, per_stub=150):
     if ci % ctx.nshards != ctx.shard:
       continue
     lines = ["from typing import Any, Callable, Literal, Union",
-             "class A: ...", "class B(A): ..."]
+             "class A: ...", "class B(A): ...", "class SL(list[str]): ..."]
     for k, c in enumerate(chunk):
       u = "Union[%s]" % ", ".join(c)
       lines.append("x%d: %s" % (k, u))
       lines.append("def f%d(a: %s) -> %s: ..." % (k, u, u))
+      if arity == 2 and "Literal" not in u:
+        # the same two types as declared type and type after the call
+        lines.append("def g%d(a: %s) -> None:\n    a = %s" % (k, c[0], c[1]))
     text = "\n".join(lines) + "\n"
     check_ast(ctx, lambda: pt.load_resolved(text, "m"), "small-unions",
               text, {"kind": "stub", "text": text}, settings=SETTINGS[:5])
